@@ -119,6 +119,15 @@ Theorem C18_hypotheses_inhabited : forall rk, ChainOk (chain_rk rk).
 Proof. exact (fun rk => conj (chain_rk_nodup rk) (chain_rk_sub rk)). Qed.
 Print Assumptions C18_hypotheses_inhabited.
 
+Theorem C18_meth_inhabited : MethOk wmeth.
+Proof. exact wmeth_rec. Qed.
+Print Assumptions C18_meth_inhabited.
+
+(* the proved domain is the complement of the union of the classifiers of KF-19 (in_fill_window) and KF-20 (in_write_window) *)
+Theorem C18_domain_complement : forall l, safe_point l = negb (in_fill_window l) && negb (in_write_window l).
+Proof. exact safe_point_complement. Qed.
+Print Assumptions C18_domain_complement.
+
 Example C18_partial_inhabited :
   safe_point (snd (run_alone wchain wmeth 4 (init [0; 1; 2]) (start (OCall 0)))) = true /\
   probes wchain wmeth 100 (fail_after wchain wmeth 4 (init [0; 1; 2]) (OCall 0)) [0; 1; 2] = map Some (map (spec_call wchain wmeth [0; 1; 2]) [0; 1; 2]) /\
